@@ -41,6 +41,7 @@ class Gen:
         self.force_scope = None
         self.focus_acc = None
         self.bare = 0.0  # probability that a setup/launch statement is a bare launch on a visible state instead
+        self.before = False  # the module holds ANOTHER function of the same form in front of @f (each function is compiled as if alone)
         self.callee = False  # the module DEFINES a function @h that programs the accelerators; @f calls it without annotation
         self.nested = 0.0  # probability that a loop body is "setup/launch/await of one accelerator, then an inner loop of the same form"
         self._plan = []
@@ -308,6 +309,12 @@ class Gen:
                 ps = ", ".join(f'"{f}" = %hz : i32' for f in FIELDS[a])
                 hl.append(f'  %hs{n} = accfg.setup "{a}" to ({ps}) : {st_ty(a)}')
             helper = "\n".join(hl + ["  func.return", "}"]) + "\n"
+        if self.before:
+            g2 = type(self)(random.Random(self.r.getrandbits(32)), full=self.full, depth=min(self.depth, 2), accs=self.accs,
+                            launch_vals=self.launch_vals, carried=0.0)
+            g2.nested, g2.sticky = self.nested, self.sticky
+            other = g2.program().split("\n", 1)[1].replace("func.func @f(", "func.func @e(", 1)
+            helper += other
         return ("func.func private @g() -> ()\n" + helper +
                 f"func.func @f({sig}) {{\n"
                 + ("  %lv = arith.constant 1 : i5\n" if self.launch_vals else "")
@@ -381,10 +388,11 @@ def mutate_src(src: str, rng: random.Random):
     copy the configuration of another setup / change one value / change loop bounds / copy a setup+launch group.  (Mutations that
     produce a launch without its own setup in front are deliberately absent: such programs are outside the properties' quantifier.)"""
     lines = src.split("\n")
-    setups = [(i, m) for i, l in enumerate(lines) if (m := _SETUP_RE.match(l))]
+    f0 = next((i for i, l in enumerate(lines) if l.startswith("func.func @f(")), 0)
+    end = next((i for i, l in enumerate(lines) if i > f0 and "func.return" in l), len(lines) - 1)
+    setups = [(i, m) for i, l in enumerate(lines) if f0 < i < end and (m := _SETUP_RE.match(l))]
     if not setups:
         return None
-    end = next((i for i, l in enumerate(lines) if "func.return" in l), len(lines) - 1)
     k = rng.random()
     i, m = rng.choice(setups)
     ind, name, acc, frm, params, ty = m.groups()
@@ -398,7 +406,7 @@ def mutate_src(src: str, rng: random.Random):
         return "\n".join(lines)
     if k < 0.24:
         # copy of a setup + launch + await (fresh names) at another position
-        start = next(j for j, l in enumerate(lines) if l.startswith("func.func @f")) + 1
+        start = next(j for j, l in enumerate(lines) if l.startswith("func.func @f(")) + 1
         # only at group boundaries (never between a setup and its launches / a launch and its await)
         ok_pos = [j for j in range(start, end + 1)
                   if re.match(r"\s*(%s\d+ = accfg\.setup|scf\.for|scf\.if|%\w+(, %\w+)* = scf\.(for|if)|func\.return|\})", lines[j])]
@@ -464,8 +472,8 @@ def shrink_src(src: str):
     """structural shrinking candidates, largest first: delete a whole statement (with its regions), replace a conditional by one of
     its branches, delete a setup together with the launches/awaits that follow it, delete a single line"""
     lines = src.split("\n")
-    start = next((i for i, l in enumerate(lines) if l.startswith("func.func @f")), 0) + 1
-    end = next((i for i, l in enumerate(lines) if "func.return" in l), len(lines))
+    start = next((i for i, l in enumerate(lines) if l.startswith("func.func @f(")), 0) + 1
+    end = next((i for i, l in enumerate(lines) if i >= start and "func.return" in l), len(lines))
 
     def rec(lo, hi):
         spans = _stmt_spans(lines, lo, hi)
@@ -512,12 +520,18 @@ def _depth_at(lines, a, k):
 
 
 def mutants(case, rng: random.Random, n=10 ** 9):
+    idle = 0
     for _ in range(n):
         src = case["src"]
         for _ in range(rng.choice([1, 1, 2, 3])):
             src = mutate_src(src, rng) or src
         if src != case["src"]:
+            idle = 0
             yield dict(case, src=src)
+        else:
+            idle += 1
+            if idle > 200:  # nothing to mutate (e.g. @f has no setup)
+                return
 
 
 # ---------------------------------------------------------------------------------------------
